@@ -100,9 +100,17 @@ func drive(args []string) int {
 			continue // an incomplete run is not handed to TLC
 		}
 		if *mode == "restart" {
+			// two lifetimes: the messages are judged by the ledger (NsqdAbs describes one lifetime); the shutdown of
+			// the first lifetime is held against the close protocol (NsqdShutdownTrace)
+			tf := filepath.Join(*outdir, fmt.Sprintf("run-%s-%d-%d.ndjson", *mode, *seed, i))
+			if w, err := hlib.NewNDJSON(tf); err == nil {
+				convertShutdown(evs, w)
+				w.Close()
+				res.Trace = tf
+			}
 			report.Traces++
 			report.Events += len(evs)
-			continue // two lifetimes: judged by the ledger (NsqdAbs describes one lifetime)
+			continue
 		}
 		tf := filepath.Join(*outdir, fmt.Sprintf("run-%s-%d-%d.ndjson", *mode, *seed, i))
 		w, err := hlib.NewNDJSON(tf)
